@@ -78,6 +78,11 @@ CLAIMED = {
    text="Structural necessary conditions decided at every site: with the no-contract edges and the validator's success edge cut, neither engine can reach the route body; validation failures are 4xx and stop; the validated value is the one bound as input; every ordinary interpreter result passes CheckType or is a marker response and a mismatch is 5xx; both engines reach the same boundary stages; a required field's value is nil-tested; each typed query conversion has its arm and returns the parse error on the failure edge; validator limits fail closed; the compiled path keeps no cached checker state; every Route literal keeps InputType/ReturnType/QueryParams.",
    note="Does not cover CheckType/TypesCompatible decisions over all types x documents. Known findings: the compiled (default) engine applies neither declared defaults nor the return-type check. Trusted: go/types, go/ssa.",
    ref="DESIGN.md §3 C07"),
+ "C18": dict(
+   technique="static analysis: sibling-table agreement over syntax trees and SSA (formatter symbol/keyword maps, keyword and punctuation arms of both lexers, operand-token sets), lexical-class rule for string scanners, who-may-use rule for bufio.Scanner",
+   text="Structural necessary conditions decided over every table entry: symbolToKeyword and keywordToSymbol are mutual inverses; each expanded keyword lexes to a token kind its symbol can produce and is not a compact keyword; the shared keyword arms of the two lexers have equal key sets and token kinds; punctuation arms and the '/'-disambiguation token set agree between the lexers; every quote-scanning function also handles the escape character; no unchecked default-buffer bufio.Scanner rewrites files.",
+   note="Does not cover round-trip equality over all sources, idempotence of the formatter, layout. Trusted: go/ast, go/types, go/ssa.",
+   ref="DESIGN.md §3 C18"),
 }
 
 NA_REASONS = {}
